@@ -68,7 +68,7 @@ def gen_slq(rng, quick=True):
 
 
 def gen_elbo(rng, quick=True, mode=None):
-    n = rng.randint(2 if mode else 1, 4 if quick else 8)
+    n = rng.randint(2 if mode else 1, 4 if quick else 6)
     m = {"wide": rng.randint(1, n - 1), "square": n, "tall": n + rng.randint(1, 2)}[mode] if mode else rng.randint(1, n + 1)
     R = [[rng.randint(-2, 2) for _ in range(n)] for _ in range(m)]
     Sd = [rng.choice([Fraction(1, 2), Fraction(1), Fraction(2), Fraction(4)]) for _ in range(m)]
@@ -464,7 +464,7 @@ def run(ctx):
     lz = [gen_lanczos(rng, ctx.quick) for _ in range(ctx.n(5, 100))]
     sq = [gen_slq(rng, ctx.quick) for _ in range(ctx.n(3, 40))]
     el = [gen_elbo(rng, ctx.quick, mode=md) for md in ("wide", "square", "tall")]      # fewer / as many / more data than dofs
-    el += [gen_elbo(rng, ctx.quick) for _ in range(ctx.n(0, 20))]
+    el += [gen_elbo(rng, ctx.quick) for _ in range(ctx.n(0, 10))]
     wf = [dict(sub="welford", a=[rs(dyadic(rng, -4, 4, 2)) for _ in range(rng.randint(1, 5))],
                b=[rs(dyadic(rng, -4, 4, 2)) for _ in range(rng.randint(1, 5))]) for _ in range(ctx.n(6, 80))]
     bt = [dict(sub="batches", n_eig=rng.randint(1, 12), n_batches=rng.randint(1, 5), skip=0) for _ in range(ctx.n(6, 80))]
@@ -503,7 +503,7 @@ def run(ctx):
         res = oracle(c)
         if res is not None:
             ctx.counterexample(c, *res)
-    for _ in range(ctx.n(4, 60)):
+    for _ in range(ctx.n(4, 40)):
         c = gen_slq2(rng, ctx.quick)
         ctx.case(c, True)
         ctx.stat(f"slq2:{c['mode']},deflate={c['deflate']},batch={c['batch']}")
